@@ -282,7 +282,9 @@ const preludeInt = `
 (declare-fun str_fold (Str Str) Bool)
 (declare-fun bytes2str ((Array Int Int) Int Int) Str)
 (declare-const str_empty Str)
+(declare-const zarr.Str (Array Int Str))
 (assert (= (strlen str_empty) 0))
+(declare-fun rtype (Int) Int)
 (declare-fun band (Int Int) Int)
 (declare-fun bor (Int Int) Int)
 (declare-fun bxor (Int Int) Int)
